@@ -543,7 +543,8 @@ class Normalizer:
             if not (c[0] == "matches" and c[1] == t[1]):
                 return self.rewrite(("ite", c, t[2][0][1], t[2][1][1]))
         if k == "switch" and len(t[2]) >= 2 and t[2][-1][0][1] is None and all(d[0] in ("var", "wild", "lit", "or") for (d, g), v in t[2]) \
-                and ((wildish(t[2][-1][0][0]) and self.is_variant_tree_or_none(t[2])) or self.decidable_switch(t[2])):
+                and (((wildish(t[2][-1][0][0]) or len(t) == 3) and self.is_variant_tree_or_none(t[2])) or self.decidable_switch(t[2])):
+            # (a match that lists all its arms - none left the function - is exhaustive: its last arm is the default)
             # a `match` with guards that yields Some(..) / None: arms are tried in order, an arm is taken when its pattern matches and its
             # guard holds (patterns bind nothing here: bound names are projections of the scrutinee)
             scrut, arms = t[1], t[2]
